@@ -77,7 +77,7 @@ def walk(sim):
                 below += b
                 ch = Cell.from_address(c.oct[o])
                 # child geometry
-                if abs(ch.w - c.w / 2) > 1e-12 * c.w:
+                if not (abs(ch.w - c.w / 2) <= 1e-12 * c.w):
                     problems.append("child width %r of a cell of width %r" % (ch.w, c.w))
         if c.pt != -n:
             problems.append("internal cell at (%g,%g,%g) w=%g has pt=%d but %d particles below" % (c.x, c.y, c.z, c.w, c.pt, n))
@@ -223,7 +223,7 @@ class Case:
                         else:
                             dvy = a[4] - b[4]
                             want = 1.5 * OMEGA * L[0] * n
-                            if abs(dvy - want) > 1e-9 * (abs(want) + 1):
+                            if not (abs(dvy - want) <= 1e-9 * (abs(want) + 1)):
                                 V.append(("boundary:shear:vy-offset", "particle %d crossed %d radial faces, vy changed by %g, expected %g after %s [%s]" % (h, n, dvy, want, where, tag)))
                                 break
                             ok = False
